@@ -14,6 +14,7 @@ import (
 	"fmt"
 	"math/big"
 	"strings"
+	"unicode/utf8"
 
 	"filippo.io/edwards25519"
 	"github.com/MixinNetwork/mixin/common"
@@ -523,9 +524,83 @@ func randAlpha(r *vh.Rand, n int) []byte {
 	return b
 }
 
+// ---- non-ASCII replacements ----------------------------------------------------------
+// base58.Decode ranges over RUNES of each 10-byte chunk: a replacement for one
+// character of a text, as UTF-8 bytes, by kind:
+//
+//	0: U+0080..U+00FF   1: rune >= U+0100 whose low byte is the original character
+//	2: ... whose low byte is another alphabet character   3: ... a non-alphabet byte
+//	4: rune above U+FFFF with the original low byte        5: invalid UTF-8
+var invalidUTF8 = [][]byte{{0x80}, {0xc3}, {0xe2, 0x82}, {0xc0, 0xb1}, {0xc1, 0x81}, {0xed, 0xa0, 0x80}, {0xf8, 0x88, 0x80, 0x80, 0x80}, {0xff}, {0xf4, 0x90, 0x80, 0x80}, {0xe0, 0x80, 0xb1}}
+
+const nonASCIIKinds = 6
+
+func nonASCII(r *vh.Rand, orig byte, kind int) []byte {
+	hi := func() rune {
+		k := rune(r.Range(1, 0xd7))
+		return k << 8
+	}
+	switch kind {
+	case 0:
+		return utf8.AppendRune(nil, rune(r.Range(0x80, 0xff)))
+	case 1:
+		return utf8.AppendRune(nil, hi()|rune(orig))
+	case 2:
+		return utf8.AppendRune(nil, hi()|rune(alphabet58[r.Intn(58)]))
+	case 3:
+		return utf8.AppendRune(nil, hi()|rune([]byte("0OIl \x00\x7f\xff\x80")[r.Intn(9)]))
+	case 4:
+		return utf8.AppendRune(nil, rune(r.Range(1, 0x10))<<16|rune(r.Intn(256))<<8|rune(orig))
+	default:
+		return invalidUTF8[r.Intn(len(invalidUTF8))]
+	}
+}
+
+func replaceAt(s []byte, pos int, with []byte) []byte {
+	out := append([]byte{}, s[:pos]...)
+	out = append(out, with...)
+	return append(out, s[pos+1:]...)
+}
+
+var kindName = []string{"latin1", "low=orig", "low=alpha", "low=foreign", "astral", "invalid-utf8"}
+
+// every position of one printed address, one base58 text and one hex text, every kind
+func sweepNonASCII(c *vh.Ctx) {
+	r := c.Rng
+	sp, vw := validKey(r, false), validKey(r, false)
+	printed := []byte(common.Address{PublicSpendKey: sp, PublicViewKey: vw}.String())
+	for pos := range printed {
+		for k := 0; k < nonASCIIKinds; k++ {
+			run(c, Case{Op: "addrparse", Kind: "rune/" + kindName[k], In: hx(replaceAt(printed, pos, nonASCII(r, printed[pos], k)))})
+		}
+	}
+	txt := append(bytes.Repeat([]byte{'1'}, r.Intn(3)), randAlpha(r, r.Range(12, 34))...)
+	for pos := range txt {
+		for k := 0; k < nonASCIIKinds; k++ {
+			run(c, Case{Op: "b58dec", Kind: "rune/" + kindName[k], In: hx(replaceAt(txt, pos, nonASCII(r, txt[pos], k)))})
+		}
+	}
+	for _, typ := range []string{"key", "hash"} {
+		h := []byte(hx(r.Bytes(32)))
+		for pos := 0; pos < len(h); pos += 1 + r.Intn(3) {
+			k := r.Intn(nonASCIIKinds)
+			m := replaceAt(h, pos, nonASCII(r, h[pos], k))
+			run(c, Case{Op: "parse", Kind: "rune/" + kindName[k], Typ: typ, In: hx(m)})
+			run(c, Case{Op: "parsejson", Kind: "rune/" + kindName[k], Typ: typ, In: hx([]byte(`"` + string(m) + `"`))})
+		}
+	}
+	for _, typ := range []string{"sig", "cosi"} {
+		h := []byte(hx(r.Bytes(sizeOf(typ))))
+		for i := 0; i < 12; i++ {
+			pos, k := r.Intn(len(h)), r.Intn(nonASCIIKinds)
+			run(c, Case{Op: "parsejson", Kind: "rune/" + kindName[k], Typ: typ, In: hx([]byte(`"` + string(replaceAt(h, pos, nonASCII(r, h[pos], k))) + `"`))})
+		}
+	}
+}
+
 func genB58(c *vh.Ctx) {
 	r := c.Rng
-	switch r.Intn(8) {
+	switch r.Intn(9) {
 	case 0: // bytes with leading zeros
 		b := append(make([]byte, r.Intn(5)), r.Bytes(r.Intn(40))...)
 		run(c, Case{Op: "b58enc", Kind: "leading-zeros", In: hx(b)})
@@ -553,6 +628,10 @@ func genB58(c *vh.Ctx) {
 		run(c, Case{Op: "b58dec", Kind: "invalid-char", In: hx(s)})
 	case 6:
 		run(c, Case{Op: "b58dec", Kind: "random-bytes", In: hx(r.Bytes(r.Intn(12)))})
+	case 7: // one character replaced by a non-ASCII rune / invalid UTF-8
+		s := append(bytes.Repeat([]byte{'1'}, r.Intn(3)), randAlpha(r, r.Range(1, 40))...)
+		pos, k := r.Intn(len(s)), r.Intn(nonASCIIKinds)
+		run(c, Case{Op: "b58dec", Kind: "rune/" + kindName[k], In: hx(replaceAt(s, pos, nonASCII(r, s[pos], k)))})
 	default: // decode what encode printed
 		run(c, Case{Op: "b58dec", Kind: "printed", In: hx([]byte(base58.Encode(r.Bytes(r.Intn(70)))))})
 	}
@@ -582,7 +661,7 @@ func genAddr(c *vh.Ctx) {
 	sp, vw := validKey(r, r.Chance(1, 12)), validKey(r, false)
 	printed := common.Address{PublicSpendKey: sp, PublicViewKey: vw}.String()
 	mut := func(kind string, s string) { run(c, Case{Op: "addrparse", Kind: kind, In: hx([]byte(s))}) }
-	switch r.Intn(14) {
+	switch r.Intn(15) {
 	case 0:
 		run(c, Case{Op: "addrprint", Kind: "valid", In: hx(sp[:]), In2: hx(vw[:])})
 	case 1:
@@ -639,6 +718,13 @@ func genAddr(c *vh.Ctx) {
 		ck := sha3.Sum256(append([]byte("XIN"), payload...))
 		ck[r.Intn(4)] ^= byte(r.Range(1, 255))
 		mut("bad-checksum", "XIN"+refB58Encode(append(payload, ck[:4]...)))
+	case 13: // one character (prefix included) replaced by a non-ASCII rune / invalid UTF-8
+		b := []byte(printed)
+		pos, k := r.Intn(len(b)), r.Intn(nonASCIIKinds)
+		if r.Chance(1, 4) {
+			pos = r.Intn(13) // prefix and first base58 chunk
+		}
+		mut("rune/"+kindName[k], string(replaceAt(b, pos, nonASCII(r, b[pos], k))))
 	default:
 		mut("random", "XIN"+string(randAlpha(r, r.Range(80, 100))))
 	}
@@ -697,8 +783,10 @@ func genText(c *vh.Ctx) {
 			in = append(in, ' ')
 			kind += "+trailing"
 		case 2:
-			in = []byte(`"\u00` + hx(txt[:1]) + string(txt[1:]) + `"`) // escaped first character
-			kind += "+escape"
+			if len(txt) > 0 {
+				in = []byte(`"\u00` + hx(txt[:1]) + string(txt[1:]) + `"`) // escaped first character
+				kind += "+escape"
+			}
 		case 3:
 			if q == "`" {
 				in = []byte("`" + string(txt[:3]) + "\r" + string(txt[3:]) + "`")
@@ -733,6 +821,12 @@ func corpus(c *vh.Ctx) {
 	for _, s := range []string{"", "1", "11", "2", "12", "21", "z", "1z1", "0", "O", "I", "l", " ", "1 ", "é", "11111111111", "zzzzzzzzzzz", "5Q", "5R"} {
 		run(c, Case{Op: "b58dec", Kind: "corpus", In: hx([]byte(s))})
 	}
+	for _, s := range []string{"\u0131", "1\u0131", "\u0131\u0131z", "\u0132", "2\u0100", "\xc4", "\xc0\xb1", "zzzzzzzzz\u0131", "zzzzzzzzz\u0131z", "\U00010031", "\u00b1", "1\xff1"} {
+		run(c, Case{Op: "b58dec", Kind: "corpus-rune", In: hx([]byte(s))})
+	}
+	for _, s := range []string{"\u0158IN1", "XIN\u0131", "X\u0149N11"} {
+		run(c, Case{Op: "addrparse", Kind: "corpus-rune", In: hx([]byte(s))})
+	}
 	for _, s := range []string{"", "XIN", "XIN1", "XI", "xin1", "XIN0"} {
 		run(c, Case{Op: "addrparse", Kind: "corpus", In: hx([]byte(s))})
 	}
@@ -763,7 +857,7 @@ func main() {
 		"2^64, through DeriveGhostPublicKey/DeriveGhostPrivateKey/ViewGhostOutputKey; base58: random byte strings (leading zeros, lengths across the 10-digit " +
 		"chunks, numbers at 58^10k±2), texts over the alphabet with leading/inner '1's, texts with one foreign character, random bytes; addresses: printed " +
 		"addresses of random valid keys (1/12 with a leading zero byte) and their single-character substitutions, foreign characters, insertions/deletions, " +
-		"extra '1', prefix variants, case flips, wrong checksum, correct checksum over invalid points / wrong lengths; key/hash/signature/collective " +
+		"extra '1', prefix variants, case flips, one character replaced by a non-ASCII rune (U+0080..FF, runes >= U+0100 whose low byte is the original / another alphabet / a foreign byte, astral) or invalid UTF-8 at every position of a printed address, a base58 text and hexadecimal texts, wrong checksum, correct checksum over invalid points / wrong lengths; key/hash/signature/collective " +
 		"signature: random values printed, hexadecimal texts (lower/upper/mixed case, wrong length, bad character) in plain and JSON form (double, back, single " +
 		"quotes, bare, unterminated, trailing byte, escape, carriage return). Non-trivial = the input reaches the codec core (valid alphabet / 68-byte payload / " +
 		"accepted text / derivation on valid keys); distinct by input."
@@ -775,6 +869,9 @@ func main() {
 		return
 	}
 	corpus(c)
+	for i := c.Scale(1, 20); i > 0; i-- {
+		sweepNonASCII(c)
+	}
 	n := c.Scale(350, 12000)
 	for i := 0; i < n; i++ {
 		genB58(c)
